@@ -36,6 +36,7 @@ static bool track_on; static udim_t track_addr;           /* address holding the
 static bool copy_valid; static udim_t copy_addr;          /* address it was migrated to */
 static bool clobbered; static int verif_memcpy_calls;
 static udim_t verif_next_base = 1;
+static udim_t verif_next_id = 0;
 /* device addresses are modelled as integers in a flat address space (char* + offset == integer
    addition): CBMC's pointer <-> integer casts are not stable enough to compare addresses */
 struct vaddr { udim_t a; };
@@ -64,7 +65,9 @@ namespace occa {
 
   class modeMemory_t { public:
     modeMemoryPool_t *modeBuffer;      /* the pool is the modeBuffer_t of its reservations */
-    vaddr ptr; udim_t size; dim_t offset; };
+    vaddr ptr; udim_t size; dim_t offset;
+    udim_t verif_id;                    /* ghost: stands for the object's address in the comparator's tie-break */
+    modeMemory_t() : modeBuffer(0), size(0), offset(0) { ptr.a = 0; verif_id = ++verif_next_id; } };
   struct verif_ring { int adds, removes; verif_ring() : adds(0), removes(0) {}
     void addRef(modeMemory_t *m) { ++adds; } void removeRef(modeMemory_t *m) { ++removes; } };   /* rings: C01 */
 
@@ -189,7 +192,10 @@ def build_unit(ctx):
     if n < 3:
         raise Undecided('rewrite rule "delete buffer; -> recorded deletion" fired %d times (expected >= 3)' % n)
     fns[0].rules.append(('delete buffer; -> verif_delete(buffer): deletion of a backing buffer is recorded with the accounting effect of ~modeBuffer_t (proved in C05)', n))
-    cmp_text = re.sub(r'^', '  ', cmp_.text, flags=re.M) + ';'
+    cmp_body = rewrite(cmp_, [('tie-break on object addresses -> on ghost object ids: pointer order is a total order on distinct '
+                               'objects and CBMC does not provide one across objects (any total order is a valid implementation choice)',
+                               r'return \(a < b\);', 'return (a->verif_id < b->verif_id);', 1)])
+    cmp_text = re.sub(r'^', '  ', cmp_body, flags=re.M) + ';'
     skel = SKELETON.replace('@COMPARE@', cmp_text).replace('@ALIGN0@', align0).replace('@SERIAL_MEM_CTOR_BODY@', body2)
     text = PRELUDE + skel + '\nnamespace occa {\n' + real + '\n}\nusing namespace occa;\n'
     return text, fns
